@@ -17,14 +17,17 @@ CLAIMED = {
              "alternatives covered). Macro arguments with more than one level of parentheses, Jinja, autoswaps, pre/post-processors not covered.",
         design="5/C04", technique="TLA+ generative spec (ModelLang) checked by TLC; every TLC-rendered source replayed into irispie's parser"),
     "C02": dict(
-        text="Aldi.tla defines derivative trees by the textbook rules and, independently, forward-mode dual numbers; on the rational fragment TLC "
-             "evaluates both exactly and checks that they agree for every enumerated tree and occurrence. Every tree becomes an equation of a "
-             "model (source text from the spec); systemize() is read through the implementation's own token labels and, per dated occurrence, "
-             "the A/B cells of the equation's row are compared with the spec's derivative tree (chain rule for log-variables); a construct is "
-             "either differentiated to that value or rejected.",
+        text="Aldi.tla defines derivative trees by the textbook rules (incl. two user context functions known by their definition) and, independently, "
+             "forward-mode dual numbers; on the rational fragment TLC evaluates both exactly and checks that they agree for every enumerated tree and "
+             "occurrence. Every tree becomes an equation of a model (source text from the spec) and is observed at all three places the property names: "
+             "systemize() (A/B cells through the implementation's own token labels), the stacked-time evaluator's eval_func/eval_jacob over three "
+             "periods with different data in every column (whole rows compared, so placement is decided too), and the flat and nonflat steady "
+             "evaluators' eval_jacob (levels and changes, time 0 and time k blocks, chain rule for the log-variable); a construct is either "
+             "differentiated to the spec's value or rejected.",
         note="Trusted: TLC, the harness' tree evaluator with math/scipy primitives. Bounds: trees of depth <= 2 (quick: seeded 6% of the depth-2 ones), "
-             "one evaluation point (x=2, y=3, p=1/4, all shifts equal), positive bases for ^, kinks excluded. Steady and stacked-time Jacobians only via C05/C06.",
-        design="5/C02", technique="TLA+ spec (Aldi) model-checked by TLC on the rational fragment; every TLC-generated tree replayed into irispie's systemize()"),
+             "one evaluation point per observer (three per tree for the stacked-time Jacobian), positive bases for ^, kinks excluded; user functions are "
+             "differentiated by finite differences, compared at 2e-6.",
+        design="5/C02", technique="TLA+ spec (Aldi) model-checked by TLC on the rational fragment; every TLC-generated tree replayed into irispie's systemize(), stacked-time and steady evaluators"),
     "C03": dict(
         text="KalmanMC.tla builds the joint Gaussian distribution of states, measurement variables and shocks of three periods from the library's "
              "reduced form (unconditional start = exact Lyapunov solution) and obtains predicted/updated/smoothed means and variances, one-step "
